@@ -437,7 +437,14 @@ func aggregate(results []*shardResult, wall time.Duration) int {
 			}
 		}
 	}
-	sort.Slice(vios, func(i, j int) bool { return vios[i].Seq < vios[j].Seq })
+	sort.SliceStable(vios, func(i, j int) bool {
+		ci := strings.HasPrefix(vios[i].Fingerprint, "crash:") || strings.HasPrefix(vios[i].Fingerprint, "hang:")
+		cj := strings.HasPrefix(vios[j].Fingerprint, "crash:") || strings.HasPrefix(vios[j].Fingerprint, "hang:")
+		if ci != cj {
+			return ci
+		}
+		return vios[i].Seq < vios[j].Seq
+	})
 
 	// race detector logs
 	raceBlocks := 0
@@ -486,6 +493,29 @@ func aggregate(results []*shardResult, wall time.Duration) int {
 		path := saveWitness(v)
 		fmt.Printf("VIOLATION property=%s replay=%s\n", prop, path)
 		fmt.Printf("  fingerprint: %s\n  case: %s (seq %d)\n  %s\n", v.Fingerprint, v.CaseID, v.Seq, firstLines(v.Msg, 6))
+	}
+
+	if nViol > 40 {
+		// summary of the fingerprints that were not printed individually
+		classes := map[string]int{}
+		for fp := range seen {
+			k := fp
+			if i := strings.IndexAny(k, "|@"); i > 0 {
+				k = k[:i]
+			}
+			if len(k) > 60 {
+				k = k[:60]
+			}
+			classes[k]++
+		}
+		ks := make([]string, 0, len(classes))
+		for k := range classes {
+			ks = append(ks, k)
+		}
+		sort.Strings(ks)
+		for _, k := range ks {
+			fmt.Printf("  fingerprint class %-62s %d\n", k, classes[k])
+		}
 	}
 
 	// inconclusive: claimed classes with zero observations
